@@ -36,11 +36,17 @@ def print_contract_cases():
 
 def production_cases(want, reachable_only=False):
     cases = []
+
+    def mk(prod, sh):
+        key = "prod/%s#%d[%s]" % (prod[3], prod[0], parsing.shape_label(sh))
+        return core.Case(key, (lambda cx, prod=prod, sh=sh: parsing.run_production(cx, prod, sh, want)),
+                         functions=["luqum.parser." + prod[3]])
     for prod in parsing.productions():
         for sh in parsing.shapes_for(prod[1], prod[2], prod[3], reachable_only):
-            key = "prod/%s#%d[%s]" % (prod[3], prod[0], parsing.shape_label(sh))
-            cases.append(core.Case(key, (lambda cx, prod=prod, sh=sh: parsing.run_production(cx, prod, sh, want)),
-                                   functions=["luqum.parser." + prod[3]]))
+            c = mk(prod, sh)
+            if any(v == "abs" or v[0] == "abs-not" for v in sh.values()):
+                c.fallback = (lambda prod=prod, sh=sh: [mk(prod, u) for u in parsing.unfolded_shapes(prod[2], sh)])
+            cases.append(c)
     return cases
 
 
@@ -70,7 +76,13 @@ def plan(tier, seed):
     def numerals():
         return bounded.run_native("c01_numerals", {"max_len": L, "long_max": 40,
                                                   "known": bounded.known_for("C01", "C01-N")})
-    pl.bounded = [("C01-N/numeral-spelling", numerals)]
+    ntok = 4 if tier == "quick" else 6
+
+    def roundtrip():
+        return bounded.run_native("c01_roundtrip", {"max_tokens": ntok, "seed": seed, "want": ["C01"],
+                                                   "known": bounded.known_for("C01", "C01-B")})
+    pl.bounded = [("C01-N/numeral-spelling", numerals),
+                  ("C01-B/print-of-parse (safety net, audit of A3/A8)", roundtrip)]
     pl.functions = sorted(set(parsing.functions_under_contract() + lexing.functions_under_contract()
                               + ["luqum.tree.Item._head_tail", "luqum.tree._number_str"]
                               + [f for c in pl.cases for f in c.functions]))
